@@ -317,17 +317,14 @@ pub fn minimise_and_report(p: &HistProp, seed: u64, tier: Tier, block_first: u64
         prefix[k].ops = kept;
     }
     // 5. drop subjects and paths no operation refers to (indices are remapped)
-    let mut final_sc = failing.clone();
-    final_sc.ops = ops;
-    let final_sc = compact(&final_sc);
+    let mut uncompacted = failing.clone();
+    uncompacted.ops = ops;
     let mut scs = prefix.clone();
-    scs.push(final_sc.clone());
+    scs.push(compact(&uncompacted));
     if !m.fails(&scs)? {
         // compaction must not change behaviour; fall back to the uncompacted scenario
         scs.pop();
-        let mut s = failing.clone();
-        s.ops = final_sc.ops.clone();
-        scs.push(s);
+        scs.push(uncompacted);
     }
     // final detail from an in-fresh-process replay is what the user sees when replaying; keep
     // the original detail in the file for reference
@@ -344,6 +341,10 @@ pub fn minimise_and_report(p: &HistProp, seed: u64, tier: Tier, block_first: u64
 fn compact(sc: &Scenario) -> Scenario {
     let mut subj_map: BTreeMap<usize, usize> = BTreeMap::new();
     let mut path_map: BTreeMap<usize, usize> = BTreeMap::new();
+    // path 0 is the path every compile is rendered for; it keeps its index
+    if !sc.paths.is_empty() {
+        path_map.insert(0, 0);
+    }
     for op in &sc.ops {
         match op {
             Op::Parse { subj } | Op::Compile { subj, .. } => {
